@@ -87,6 +87,9 @@ def run_case(ctx, a, paths, cmd, opts, expect, desc, replay, model_cmd=None, aft
         return o
     failing = o.rc != 0
     obs = L.observed_coarse(o)
+    for r in L.lock_path_removed(o)[:1]:
+        ctx.viol('lock_removed', 'LOCK FILE REMOVED OR REPLACED by `%s %s` (%s %s): the lock is a flock on the inode behind <first content>.lock; once the path is removed while another command holds or is taking the lock, a third command locks a new inode and runs concurrently (%s)'
+                 % (cmd, ' '.join(opts), r['call'], r['extra'], desc), rep)
     writes = obs - {('WLock',), ('WLog',)}
     changed_protected = before != after
     # ---- the property itself, independent of the model
@@ -615,6 +618,12 @@ def main(tier, replay=None):
             for pending in ([False, True] if thorough or variant == 'one_block_short' else [bool(k % 2)]):
                 jobs.append((scenario_sync_trigger, (rng.getrandbits(30), 'parity', where, variant, pending, sh)))
         k += 1
+    # (c'') an EARLIER level completely empty while a later level is intact: the minimum over the levels must still be 0
+    for variant in ['delete', 'truncate_zero']:
+        for sh in ([(3, 2, 2), (3, 3, 1)] if not thorough else [(3, 2, 2), (3, 3, 1), (4, 2, 3)]):
+            for where in range(sh[1] - 1):
+                for pending in ([True] if not thorough and variant == 'truncate_zero' else [False, True]):
+                    jobs.append((scenario_sync_trigger, (rng.getrandbits(30), 'parity', where, variant, pending, sh)))
     # (c') short parity with a version-3 content file (recorded split sizes)
     for fmt in ['hashsize8', 'split2']:
         for variant in (['one_block_short', 'truncate_zero'] if not thorough else ['delete', 'truncate_zero', 'one_block_short', 'exact']):
